@@ -37,6 +37,8 @@ class Recorder:
         self.last_digest = ""
         self.last_same = []
         self._last_raw = {}
+        self.law = {}
+        self.last_rel = []
 
     def watch_module(self, name, module):
         from .digests import module_digest
@@ -46,9 +48,47 @@ class Recorder:
     def watch_fn(self, name, fn):
         self.watch[name] = fn
 
+    def watch_law(self, target_name, target_module, online_module, tau):
+        """The watched target is documented to follow target' = tau*online + (1-tau)*target (tau=1: hard copy).
+        Whenever its content changes, the relation between its previous value, the online network's current value
+        and its new value is judged (float32 recomputation, a few ulp) and logged as the event field `rel`."""
+        self.law[target_name] = [target_module, online_module, float(tau), None]
+
+    @staticmethod
+    def _leaves(module):
+        import jax
+        from flax import nnx
+
+        return [np.asarray(x) for x in jax.tree_util.tree_leaves(nnx.state(module))]
+
+    def _judge_laws(self, changed_names):
+        rel = []
+        for name, ent in self.law.items():
+            tmod, omod, tau, prev = ent
+            cur = self._leaves(tmod)
+            if prev is not None and name in changed_names:
+                on = self._leaves(omod)
+                ok = len(on) == len(cur) == len(prev)
+                if ok:
+                    for a, b, c in zip(on, prev, cur):
+                        if a.shape != c.shape or b.shape != c.shape:
+                            ok = False
+                            break
+                        if not np.issubdtype(c.dtype, np.floating):
+                            continue
+                        want = np.float32(tau) * a.astype(np.float32) + np.float32(1.0 - tau) * b.astype(np.float32)
+                        tol = 8 * np.finfo(np.float32).eps * (np.abs(a) + np.abs(b) + 1e-30)
+                        if not np.all(np.abs(c.astype(np.float32) - want) <= tol):
+                            ok = False
+                            break
+                rel.append([name, "polyak" if ok else "other"])
+            ent[3] = cur
+        return rel
+
     def snapshot(self):
         out = {}
         hh = hashlib.sha1()
+        before = dict(self._last_raw)
         for name, fn in self.watch.items():
             try:
                 d = fn()
@@ -68,6 +108,8 @@ class Recorder:
             if dd is not None and not dd.startswith("unreadable"):
                 by.setdefault(dd, []).append(name)
         self.last_same = [sorted(v) for v in by.values() if len(v) > 1]
+        if self.law:
+            self.last_rel = self._judge_laws({n for n in self.law if n in before and before[n] != self._last_raw.get(n)})
         return out
 
     def emit(self, ev, **fields):
@@ -81,6 +123,8 @@ class Recorder:
             rec["ver"] = self.snapshot()
             rec["vd"] = self.last_digest
             rec["same"] = self.last_same
+            if self.law:
+                rec["rel"] = self.last_rel
         self.events.append(rec)
 
 
